@@ -267,17 +267,23 @@ func baseOf(env *sysEnv, backend string) string {
 // checkTransparent applies the C01 differential oracle (and the C16
 // propagation invariants) to one fault-free exchange.
 func checkTransparent(x *X, env *sysEnv, ex *exchange, rh, th string, genIDs map[string]int) {
+	checkTransparentAs(x, "C01", env, ex, rh, th, genIDs)
+}
+
+// checkTransparentAs reports transparency violations under property `prop`
+// (C01 itself, or C14/C15 for "exchanges within the limits pass unchanged").
+func checkTransparentAs(x *X, prop string, env *sysEnv, ex *exchange, rh, th string, genIDs map[string]int) {
 	got := ex.got
 	if ex.dialErr != "" || got == nil {
-		x.Violate("C01", "C01/no-response", "exchange %d (%s %s): no response (%s)", ex.id, ex.method, ex.target, ex.dialErr)
+		x.Violate(prop, prop+"/no-response", "exchange %d (%s %s): no response (%s)", ex.id, ex.method, ex.target, ex.dialErr)
 		return
 	}
 	if got.err != "" {
-		x.Violate("C01", "C01/response-error", "exchange %d (%s %s -> scripted %d %s %dB): client failed with %s after %d body bytes", ex.id, ex.method, ex.target, ex.resp.status, ex.resp.framing, len(ex.resp.body), got.err, len(got.body))
+		x.Violate(prop, prop+"/response-error", "exchange %d (%s %s -> scripted %d %s %dB): client failed with %s after %d body bytes", ex.id, ex.method, ex.target, ex.resp.status, ex.resp.framing, len(ex.resp.body), got.err, len(got.body))
 		return
 	}
 	if len(ex.seen) != 1 {
-		x.Violate("C01", fmt.Sprintf("C01/backend-saw-%d-requests", len(ex.seen)), "exchange %d reached backends %d times", ex.id, len(ex.seen))
+		x.Violate(prop, prop+fmt.Sprintf("/backend-saw-%d-requests", len(ex.seen)), "exchange %d reached backends %d times", ex.id, len(ex.seen))
 		return
 	}
 	sr := ex.seen[0]
@@ -289,17 +295,17 @@ func checkTransparent(x *X, env *sysEnv, ex *exchange, rh, th string, genIDs map
 
 	// ---- request side ---------------------------------------------------------
 	if sr.method != ex.method {
-		x.Violate("C01", "C01/method-differs", "exchange %d: client sent %s, backend saw %s", ex.id, ex.method, sr.method)
+		x.Violate(prop, prop+"/method-differs", "exchange %d: client sent %s, backend saw %s", ex.id, ex.method, sr.method)
 	}
 	wantTarget := baseOf(env, sr.backend) + ex.target
 	if sr.target != wantTarget {
-		x.Violate("C01", "C01/target-differs", "exchange %d: client sent %q (backend base %q), backend saw %q, expected %q", ex.id, ex.target, baseOf(env, sr.backend), sr.target, wantTarget)
+		x.Violate(prop, prop+"/target-differs", "exchange %d: client sent %q (backend base %q), backend saw %q, expected %q", ex.id, ex.target, baseOf(env, sr.backend), sr.target, wantTarget)
 	}
 	if !bytes.Equal(sr.body, ex.body) {
-		x.Violate("C01", "C01/body-differs{request}", "exchange %d: request body of %d bytes arrived as %d bytes (err %q)", ex.id, len(ex.body), len(sr.body), sr.bodyErr)
+		x.Violate(prop, prop+"/body-differs{request}", "exchange %d: request body of %d bytes arrived as %d bytes (err %q)", ex.id, len(ex.body), len(sr.body), sr.bodyErr)
 	}
 	if len(ex.body) > 0 && sr.chunked != ex.chunked {
-		x.Violate("C01", fmt.Sprintf("C01/request-reframed{chunked:%v->%v}", ex.chunked, sr.chunked), "exchange %d: request framing changed (client chunked=%v, backend saw chunked=%v, content-length %d)", ex.id, ex.chunked, sr.chunked, sr.clen)
+		x.Violate(prop, prop+fmt.Sprintf("/request-reframed{chunked:%v->%v}", ex.chunked, sr.chunked), "exchange %d: request framing changed (client chunked=%v, backend saw chunked=%v, content-length %d)", ex.id, ex.chunked, sr.chunked, sr.clen)
 	}
 	sent := map[string][]string{}
 	var clientXFF []string
@@ -329,26 +335,26 @@ func checkTransparent(x *X, env *sysEnv, ex *exchange, rh, th string, genIDs map
 	sawE2E := endToEnd(sr.hdr, drop...)
 	sentE2E := endToEnd(headerOf(sent), drop...)
 	if d := diffHeaders(sentE2E, sawE2E); d != "" {
-		x.Violate("C01", "C01/request-headers{"+diffKinds(sentE2E, sawE2E)+"}", "exchange %d: end-to-end request headers differ at the backend: %s", ex.id, d)
+		x.Violate(prop, prop+"/request-headers{"+diffKinds(sentE2E, sawE2E)+"}", "exchange %d: end-to-end request headers differ at the backend: %s", ex.id, d)
 	}
 	wantXFF := strings.Join(append(append([]string{}, clientXFF...), peerIP), ", ")
 	if gotXFF := strings.Join(sr.hdr["X-Forwarded-For"], ", "); gotXFF != wantXFF {
-		x.Violate("C01", "C01/x-forwarded-for", "exchange %d: backend saw X-Forwarded-For %q, expected %q", ex.id, gotXFF, wantXFF)
+		x.Violate(prop, prop+"/x-forwarded-for", "exchange %d: backend saw X-Forwarded-For %q, expected %q", ex.id, gotXFF, wantXFF)
 	}
 
 	// ---- response side ----------------------------------------------------------
 	if got.status != rs.status {
-		x.Violate("C01", fmt.Sprintf("C01/status-differs{%d->%d}", rs.status, got.status), "exchange %d: backend sent %d, client got %d", ex.id, rs.status, got.status)
+		x.Violate(prop, prop+fmt.Sprintf("/status-differs{%d->%d}", rs.status, got.status), "exchange %d: backend sent %d, client got %d", ex.id, rs.status, got.status)
 	}
 	if fmt.Sprint(got.interim) != fmt.Sprint(rs.interim) && !(len(got.interim) == 0 && len(rs.interim) == 0) {
-		x.Violate("C01", "C01/interim-responses-differ", "exchange %d: backend sent interim %v, client got %v", ex.id, rs.interim, got.interim)
+		x.Violate(prop, prop+"/interim-responses-differ", "exchange %d: backend sent interim %v, client got %v", ex.id, rs.interim, got.interim)
 	}
 	wantBody := rs.body
 	if ex.method == "HEAD" {
 		wantBody = nil
 	}
 	if !bytes.Equal(got.body, wantBody) {
-		x.Violate("C01", "C01/body-differs{response}", "exchange %d (%s -> %d %s): backend sent %d body bytes, client got %d", ex.id, ex.method, rs.status, rs.framing, len(wantBody), len(got.body))
+		x.Violate(prop, prop+"/body-differs{response}", "exchange %d (%s -> %d %s): backend sent %d body bytes, client got %d", ex.id, ex.method, rs.status, rs.framing, len(wantBody), len(got.body))
 	}
 	scriptH := map[string][]string{}
 	hasDate := false
@@ -372,13 +378,13 @@ func checkTransparent(x *X, env *sysEnv, ex *exchange, rh, th string, genIDs map
 	gotE2E := endToEnd(got.hdr, rdrop...)
 	wantE2E := endToEnd(headerOf(scriptH), rdrop...)
 	if d := diffHeaders(wantE2E, gotE2E); d != "" {
-		x.Violate("C01", "C01/response-headers{"+diffKinds(wantE2E, gotE2E)+"}", "exchange %d (%s -> %d): end-to-end response headers differ at the client: %s", ex.id, ex.method, rs.status, d)
+		x.Violate(prop, prop+"/response-headers{"+diffKinds(wantE2E, gotE2E)+"}", "exchange %d (%s -> %d): end-to-end response headers differ at the client: %s", ex.id, ex.method, rs.status, d)
 	}
 	// framing visible to the client
 	switch rs.framing {
 	case "cl":
 		if got.clen != int64(len(rs.body)) {
-			x.Violate("C01", "C01/response-reframed{content-length-lost}", "exchange %d (%s -> %d): backend declared Content-Length %d, client saw length %d chunked=%v", ex.id, ex.method, rs.status, len(rs.body), got.clen, got.chunked)
+			x.Violate(prop, prop+"/response-reframed{content-length-lost}", "exchange %d (%s -> %d): backend declared Content-Length %d, client saw length %d chunked=%v", ex.id, ex.method, rs.status, len(rs.body), got.clen, got.chunked)
 		}
 	case "chunked":
 		if ex.method != "HEAD" && got.clen >= 0 && len(rs.body) > 0 {
@@ -403,7 +409,7 @@ func checkTransparent(x *X, env *sysEnv, ex *exchange, rh, th string, genIDs map
 			x.Probe("stream-gap-checked")
 			if have < w.n {
 				ct := strings.Join(scriptH["Content-Type"], "")
-				x.Violate("C01", "C01/not-streamed{"+ct+"}", "exchange %d: the backend flushed %d bytes by t=%v and wrote again at t=%v, but the client had only %d bytes by then (content-type %s)", ex.id, w.n, w.at, next.at, have, ct)
+				x.Violate(prop, prop+"/not-streamed{"+ct+"}", "exchange %d: the backend flushed %d bytes by t=%v and wrote again at t=%v, but the client had only %d bytes by then (content-type %s)", ex.id, w.n, w.at, next.at, have, ct)
 				break
 			}
 		}
